@@ -82,7 +82,7 @@ func checkC08(c *h.Ctx, ec *ExecCase) {
 	mode := modeName(ec.P.IsLax())
 	var vq, sq *h.Out
 	var ve, se *h.Out
-	var sm *h.Out
+	var sm, sem *h.Out
 	det := deterministicCase(ec, doc, vo.Vars)
 	for _, entry := range h.Entries {
 		v := h.Call(entry, ec.P, doc, vo)
@@ -99,6 +99,9 @@ func checkC08(c *h.Ctx, ec *ExecCase) {
 		}
 		if entry == "match" {
 			sm = s
+		}
+		if entry == "existsormatch" {
+			sem = s
 		}
 		feat := func(kv ...string) map[string]string {
 			return h.F(append([]string{"entry", entry, "mode", mode}, kv...)...)
@@ -210,6 +213,17 @@ func checkC08(c *h.Ctx, ec *ExecCase) {
 	// 3b. Exists: NULL unless the answer was already established (an item found before the failure)
 	if !det {
 		return
+	}
+	// 3d. silently, ExistsOrMatch answers as the entry point it stands for does
+	// (NULL where that one answers NULL - not a plain false)
+	if ref := map[bool]*h.Out{true: sm, false: se}[ec.P.IsPredicate()]; sem != nil && ref != nil && sem.Class != h.Panic && ref.Class != h.Panic {
+		if sem.Class != ref.Class || sem.Bool != ref.Bool {
+			scs := cs
+			scs.Silent = true
+			c.Violate("soft.exists-null", h.F("mode", mode, "entry", "existsormatch", "predicate", fmt.Sprint(ec.P.IsPredicate())), fmt.Sprintf("silent ExistsOrMatch: %s; silent %s: %s", sem.Summary(), ref.Entry, ref.Summary()), scs)
+		} else {
+			c.Held("soft.exists-null")
+		}
 	}
 	// 3a. Match: NULL unless the answer was already established - the single
 	// boolean the silent Query returns is the established answer
